@@ -73,4 +73,10 @@ Definition CohM (b : bstate) : Prop :=
 Definition Coh (b : bstate) : Prop := WF (ax b) /\ CohM b.
 
 (* admissible steps: mutators with admissible arguments (Tableabs.op_ok), any read *)
-Definition bop_ok (o : bop) : Prop := match o with BMut m => op_ok m | BRead _ => True | BLive _ => True end.
+Definition lop_ok (l : lop) : Prop :=
+  match l with
+  | LRowOp _ (RSet _ c) | LRowOp _ (RIns _ c) | LRowOp _ (RApp c) => (1 <= fst c)%nat
+  | LRowOp _ (RDel _) => True
+  | LRowOp _ _ => False
+  | _ => True end.
+Definition bop_ok (o : bop) : Prop := match o with BMut m => op_ok m | BRead _ => True | BLive l => lop_ok l end.
